@@ -90,7 +90,7 @@ def cases(tier, seed):
     out = []
     # (d) layouts first (slowest single cases)
     doc_names = docs.names()
-    lay_docs = ["petstore", "streams"] if tier == "quick" else doc_names
+    lay_docs = ["petstore", "streams", "codes"] if tier == "quick" else doc_names
     for o in LAYOUT_OUT:
         for c in LAYOUT_CORE:
             for ns in NAMING:
